@@ -108,6 +108,23 @@ fixpoint rounds of the analysis over names/collections, not over inputs.
   the same whence by the underlying file: discharged (the offset is R1's).  Served by an absolute seek / the other relative whence
   whose target has no `unknown` source and does not contain the anchor: violated by L11.  Anything else (two seeks "to the end, then
   back", `tell() + offset`, an end measured by the constructor): undecided.  Lemma: L11.
+* R9 (what seek() returns - finding F25: on every return path of the view's seek() the value returned is the position tell() reports
+  for the cursor the seek leaves behind; a file object returns its new position from seek()): 5 (the same case analysis of seek() over
+  the whence vocabulary as R1/R8, `_exec_seek`; in an expression, a conditional expression whose test is constant under the case
+  contributes the calls of one arm only), 3 (terms by substituting definitions: the walk carries the raw position as a term of a
+  symbolic cursor - <raw position> before the seek; offset-argument term / position + d / <end of file> + d after a raw seek with
+  whence SET / CUR / END (L1); a fresh symbol after anything else that may move the file: other operations of the underlying file,
+  methods of the view that do more than ask for the position, calls that are handed the view or the file, a seek under a condition -;
+  the result of a raw seek is the position it leaves, `tell()` of the underlying file is the position *where it is evaluated* (a query
+  inside the arguments of the only seek of an expression sees the cursor before it, any other query in the same expression as a seek is
+  an unknown); `self.tell()` - and any argument-less method of the view made of single assignments and one return that only asks the
+  file for `tell()` - is the term of its return expression at that cursor (`_reader_term`), a tell() of another form the opaque term
+  "<tell() at step k>", equal to itself as long as nothing may have moved the file; locals are followed path-wise as in R1; terms
+  are compared in polynomial normal form).  Equal: discharged (`return self.tell()`, `<raw seek result> - (nonce_offset + 8)`, the offset
+  itself after an absolute seek, ...).  Different and written in the vocabulary offset / <raw position> / <end of file> / nonce_offset /
+  constants: violated (a bare raw seek result, a position taken before the seek, a wrong header length).  `return` without a value /
+  `return None` / falling off the end: violated.  Anything else (foreign atoms, a value that is not an arithmetic term, paths the walk
+  cannot follow): undecided; paths that end in `raise` return nothing and are not judged.  Lemma: L1.
 * R5: the scanner obligations of rules/c15.py (`scanner_obligations`), imported unchanged - see that module: structural
   shape, interval abstract interpretation `absint.Interp`, polynomials, CFG (devices 1-4).
 
@@ -183,6 +200,7 @@ _WHENCE = {"SEEK_SET": 0, "SEEK_CUR": 1, "SEEK_END": 2}
 
 H = SymPoly.atom("self.nonce_offset") + SymPoly.const(8)
 POS = SymPoly.atom("<raw position>")
+END = SymPoly.atom("<end of file>")
 CONSUMED = SymPoly.atom("<bytes consumed>")
 
 
@@ -616,7 +634,11 @@ def run(ctx):
         "(same case analysis as for the header length) the target of the one raw seek is either served by the same whence of the underlying "
         "file, or its def-use sources (offset argument, constants, tell(), and through properties / the constructor's stores its arguments and "
         "the header words it read) are collected - a target built without the anchor, e.g. an end taken from the size word of the header, is a "
-        "violation; targets whose sources cannot be followed completely are undecided."
+        "violation; targets whose sources cannot be followed completely are undecided; what seek() returns is the position tell() reports for the "
+        "cursor the seek leaves behind (F25; same case analysis: the raw position is carried as a term of a symbolic cursor through the raw seek(s) "
+        "of the path, the returned value and the return expression of tell() at that cursor are compared as polynomials - `return self.tell()`, "
+        "`<result of the underlying seek> - (nonce_offset + 8)` and the like are accepted, a bare result of the underlying seek (a position in the "
+        "encoded file), a position taken before the seek or no return value are violations, other forms are undecided)."
     )
     rep.not_decided = [
         "plaintext equality for all seek/read histories",
@@ -639,6 +661,10 @@ def run(ctx):
         "relative seeks served by something else than the same whence of the underlying file whose target does involve the anchor (tell() + offset, "
         "seek to the end first and then back, an end measured once by the constructor): the arithmetic / the several movements are not followed - undecided (R8, R1); "
         "that read() really stops at the end of the underlying file is R2's, not re-established by R8",
+        "values returned by seek() that are not arithmetic terms over the offset, the raw position / end of file and the header length (clamped with "
+        "max(), converted, taken from a helper with arguments the normaliser could not inline, computed after a call whose effect on the file is not "
+        "followed), seek() bodies with try / with / loops around the seek, tests that do not become constant under the whence case: undecided (R9); "
+        "that the position returned is *legal* (seeking before the start of the decoded data) is not examined",
         "state carried across calls other than a cached rolling key (remembered positions, read-ahead buffers), caches that are validated "
         "where they are used (position comparison, validity flag), cached values other than a constant / a whole word read at the cursor / "
         "a read_nonce() result: undecided; movements of the underlying file made from outside the class",
@@ -679,6 +705,7 @@ def run(ctx):
     r6(ctx)
     r7(ctx)
     r8(ctx)
+    r9(ctx)
     # automatic detection relies on the marker scan: the scanner obligations of C15 are necessary conditions here
     from rules import c15
 
@@ -894,10 +921,21 @@ def _exec_seek(ctx, f, off: str, wh: str, v: int, trace: Optional[dict] = None):
     With `trace` (a dict) the walk also records where the values come from (def-use value flow, R8): `trace["sources"]`
     maps id(<raw seek call>) to the set of sources (`_SRC_*`) its offset argument is computed from on this path, and
     `trace["opaque"]` lists the operations on the path whose effect on the underlying cursor is not followed (raw calls
-    other than seek/tell, calls of other methods of the view)."""
+    other than seek/tell, calls of other methods of the view).
+
+    With `trace["returns"]` (a list; R9) the walk also keeps the raw position as a term of a symbolic cursor (L1: before the
+    seek <raw position>; after `seek(p, SEEK_SET)` p, after `seek(d, SEEK_CUR)` position + d, after `seek(d, SEEK_END)`
+    <end of file> + d; after anything else that may move the file a fresh symbol), gives the result of a raw seek / a raw
+    `tell()` / a call of an argument-less method of the view that only asks for the position (`_reader_term`) the term
+    it has *where it is evaluated*, and appends (return statement | None for falling off the end, returned term | "none" |
+    None = not an arithmetic term, term tell() returns for the cursor at that point) for the exit of the path."""
     fn = f.node
     env: Dict[str, Optional[SymPoly]] = {wh: SymPoly.const(v)}
     seeks: List[Tuple[ast.Call, Optional[SymPoly], Optional[int]]] = []
+    rets = trace.get("returns") if trace is not None else None
+    cursor = {"pos": POS, "step": 0}  # R9: term of the raw position, number of (possible) movements so far
+    results: Dict[int, SymPoly] = {}  # R9: id(raw seek call) -> the position it returns
+    ambiguous: set = set()  # R9: position queries evaluated in the same expression as a raw seek (order not followed)
     # value sources of the locals (R8): the offset parameter is itself, whence is a constant under the case
     envd: Dict[str, frozenset] = {off: frozenset([_SRC_OFFSET]), wh: frozenset()}
     if trace is not None:
@@ -913,8 +951,40 @@ def _exec_seek(ctx, f, off: str, wh: str, v: int, trace: Optional[dict] = None):
             if isinstance(x, ast.Name) and isinstance(x.ctx, (ast.Store, ast.Del)):
                 env[x.id] = None
                 envd[x.id] = frozenset([_SRC_UNKNOWN])
+        if rets is not None:
+            for x in ast.walk(st):
+                if isinstance(x, ast.Call) and disturbs(x):
+                    moved()
+
+    def moved(to: Optional[SymPoly] = None):
+        """R9: the underlying cursor is (or may be) somewhere else from here on"""
+        cursor["step"] += 1
+        cursor["pos"] = to if to is not None else SymPoly.atom(f"<raw position after step {cursor['step']}>")
+
+    def disturbs(c: ast.Call) -> bool:
+        """R9: a call other than a raw seek (followed) that may move the underlying file: its other operations, methods of
+        the view that do more than ask for the position, anything that is handed the view / the file"""
+        if isinstance(c.func, ast.Attribute) and _is_raw(fn, c.func.value):
+            return c.func.attr not in ("seek",) + _PASSIVE
+        g = _self_callee(ctx, f, c)
+        if g is not None:
+            return _reads_position(ctx, g) and _reader_term(ctx, g, POS, 0) is None
+        sn = params(fn)[0]
+        return any((isinstance(a, ast.Name) and a.id == sn) or _is_raw(fn, a) for a in list(c.args) + [k.value for k in c.keywords])
 
     def sp(x):
+        if rets is not None and isinstance(x, ast.Call) and isinstance(x.func, ast.Attribute):
+            if id(x) in ambiguous:
+                return SymPoly.atom(f"<{src(x)} next to a seek>")
+            if _is_raw(fn, x.func.value):
+                if x.func.attr == "seek":
+                    return results.get(id(x))
+                if x.func.attr == "tell" and not x.args and not x.keywords:
+                    return cursor["pos"]
+            else:
+                g = _self_callee(ctx, f, x)
+                if g is not None and not x.args and not x.keywords and _reads_position(ctx, g):
+                    return _reader_term(ctx, g, cursor["pos"], cursor["step"])
         if isinstance(x, ast.Name) and x.id in env:
             return env[x.id] if env[x.id] is not None else SymPoly.atom(f"<{x.id}?>")
         if isinstance(x, ast.IfExp):
@@ -973,13 +1043,52 @@ def _exec_seek(ctx, f, off: str, wh: str, v: int, trace: Optional[dict] = None):
     def collect(e):
         if e is None:
             return
-        for c in sorted((x for x in ast.walk(e) if isinstance(x, ast.Call)), key=lambda c: (getattr(c, "lineno", 0), getattr(c, "col_offset", 0))):
+        # the calls that are evaluated under the case: a conditional expression whose test is constant under the case evaluates one arm
+        # only; calls under a test that is not, behind a short-circuit operator or inside a lambda / comprehension are `conditional`
+        live: List[ast.Call] = []
+        conditional: set = set()
+
+        def gather(x, cond: bool):
+            if isinstance(x, ast.IfExp):
+                t = tv(x.test)
+                gather(x.test, cond)
+                for arm in ((x.body,) if t is True else (x.orelse,) if t is False else (x.body, x.orelse)):
+                    gather(arm, cond or t is None)
+                return
+            if isinstance(x, ast.Call):
+                live.append(x)
+                if cond:
+                    conditional.add(id(x))
+            sub_cond = cond or isinstance(x, (ast.Lambda, ast.ListComp, ast.SetComp, ast.DictComp, ast.GeneratorExp))
+            for k, ch in enumerate(ast.iter_child_nodes(x)):
+                gather(ch, sub_cond or (isinstance(x, ast.BoolOp) and k > 1))  # child 0 of a BoolOp is the operator, child 1 its first operand
+
+        gather(e, False)
+        calls = sorted(live, key=lambda c: (getattr(c, "lineno", 0), getattr(c, "col_offset", 0)))
+        rseeks = [c for c in calls if isinstance(c.func, ast.Attribute) and c.func.attr == "seek" and _is_raw(fn, c.func.value)] if rets is not None else []
+        if rseeks:
+            # arguments are evaluated before the call: a position query inside the arguments of the only seek sees the cursor before it
+            before = {id(x) for x in ast.walk(rseeks[0])} if len(rseeks) == 1 else set()
+            for c in calls:
+                if id(c) in before:
+                    continue
+                if isinstance(c.func, ast.Attribute) and ((c.func.attr == "tell" and _is_raw(fn, c.func.value))
+                                                         or (_self_callee(ctx, f, c) is not None and _reads_position(ctx, _self_callee(ctx, f, c)))):
+                    ambiguous.add(id(c))
+        for c in calls:
             if isinstance(c.func, ast.Attribute) and c.func.attr == "seek" and _is_raw(fn, c.func.value):
                 a, w = _seek_args(c)
                 seeks.append((c, poly(a) if a is not None else None, 0 if w is None else cval(w)))
                 if trace is not None:
                     trace["sources"][id(c)] = sources(a) if a is not None else frozenset([_SRC_UNKNOWN])
-            elif trace is not None and isinstance(c.func, ast.Attribute) and (
+                if rets is not None:
+                    _c0, pa, pw = seeks[-1]
+                    moved(None if pa is None or pw not in (0, 1, 2) or id(c) in conditional else pa if pw == 0 else (cursor["pos"] + pa) if pw == 1 else END + pa)
+                    results[id(c)] = cursor["pos"]  # L1: seek returns the new position
+                continue
+            if rets is not None and disturbs(c):
+                moved()
+            if trace is not None and isinstance(c.func, ast.Attribute) and (
                     (_is_raw(fn, c.func.value) and c.func.attr not in ("tell", "seekable", "readable", "fileno"))
                     or (_self_callee(ctx, f, c) is not None and _accessor_body(ctx, f, c) is None)):
                 trace["opaque"].append(c)
@@ -1005,6 +1114,18 @@ def _exec_seek(ctx, f, off: str, wh: str, v: int, trace: Optional[dict] = None):
         if isinstance(pat, ast.MatchAs) and pat.pattern is None:
             return True
         return None
+
+    def leave(st):
+        """R9: the path ends here with a value (None: by falling off the end)"""
+        if rets is None:
+            return
+        tellf = ctx.repo.func(f"{CLS}.tell") if ctx.repo.has_func(f"{CLS}.tell") else None
+        want = _reader_term(ctx, tellf, cursor["pos"], cursor["step"]) if tellf is not None else None
+        val = st.value if st is not None else None
+        if val is None or (isinstance(val, ast.Constant) and val.value is None):
+            rets.append((st, "none", want))
+        else:
+            rets.append((st, poly(val), want))
 
     def run(body) -> str:
         for st in body:
@@ -1053,6 +1174,7 @@ def _exec_seek(ctx, f, off: str, wh: str, v: int, trace: Optional[dict] = None):
                 envd[st.target.id] = ds
             elif isinstance(st, ast.Return):
                 collect(st.value)
+                leave(st)
                 return "done"
             elif isinstance(st, ast.Raise):
                 return "done"
@@ -1067,7 +1189,69 @@ def _exec_seek(ctx, f, off: str, wh: str, v: int, trace: Optional[dict] = None):
                 forget(st)
         return "fall"
 
-    return run(fn.body), seeks
+    status = run(fn.body)
+    if status == "fall":
+        leave(None)
+    return status, seeks
+
+
+def _reads_position(ctx, g, depth: int = 0) -> bool:
+    """The method touches the underlying file or calls methods of the view (conservative: what it returns may depend on the
+    cursor); False for accessors that only combine attributes and constants."""
+    if depth > 3:
+        return True
+    sn = params(g.node)[0] if params(g.node) else None
+    for c in fn_calls(g.node):
+        if isinstance(c.func, ast.Attribute) and _is_raw(g.node, c.func.value):
+            return True
+        if any(_is_raw(g.node, a) or (isinstance(a, ast.Name) and a.id == sn) for a in list(c.args) + [k.value for k in c.keywords]):
+            return True  # the file / the view handed on
+        g2 = _self_callee(ctx, g, c)
+        if g2 is not None and _reads_position(ctx, g2, depth + 1):
+            return True
+    return False
+
+
+def _reader_term(ctx, g, pos: SymPoly, step: int, depth: int = 0) -> Optional[SymPoly]:
+    """Term of what the argument-less method g of the view returns when it is called with the underlying cursor at `pos`,
+    for a method that only *asks* the underlying file for its position: straight-line single assignments to locals and one
+    final return, no operation of the underlying file but `tell()`, calls of methods of the view only of the same kind
+    (terms by substituting definitions - device 3).  tell() itself, when it is not of that form, is the opaque term
+    "<tell() at step k>" - equal to itself as long as nothing may have moved the file in between.  None: not such a method."""
+    fn = g.node
+    is_tell = ctx.repo.has_func(f"{CLS}.tell") and ctx.repo.func(f"{CLS}.tell").node is fn
+    opaque = SymPoly.atom(f"<tell() at step {step}>") if is_tell else None
+    if depth > 3 or len(params(fn)) != 1 or not fn.body:
+        return opaque
+    *head, last = fn.body
+    if not (isinstance(last, ast.Return) and last.value is not None) or any(isinstance(x, ast.Return) for st in head for x in ast.walk(st)):
+        return opaque
+    for st in head:
+        pairs = _name_pairs(st) if isinstance(st, (ast.Assign, ast.AnnAssign)) else None
+        if pairs is None or any(len(assignments_to(fn, nm)) != 1 for nm, _e in pairs):
+            return opaque
+    for c in fn_calls(fn):
+        if isinstance(c.func, ast.Attribute) and _is_raw(fn, c.func.value) and not (c.func.attr == "tell" and not c.args and not c.keywords):
+            return opaque
+        if any(_is_raw(fn, a) or (isinstance(a, ast.Name) and a.id == params(fn)[0]) for a in list(c.args) + [k.value for k in c.keywords]):
+            return opaque
+    failed = []
+
+    def sp(x):
+        if isinstance(x, ast.Call) and isinstance(x.func, ast.Attribute):
+            if _is_raw(fn, x.func.value):
+                return pos
+            g2 = _self_callee(ctx, g, x)
+            if g2 is not None and _reads_position(ctx, g2):
+                t = _reader_term(ctx, g2, pos, step, depth + 1) if not x.args and not x.keywords else None
+                if t is None:
+                    failed.append(x)
+                    return SymPoly.atom(f"<{src(x)}?>")
+                return t
+        return None
+
+    p = _poly(ctx, g, last.value, sp)
+    return opaque if p is None or failed else p
 
 
 def _r1_seek(ctx):
@@ -2590,7 +2774,6 @@ def r6(ctx):
 # cursor back - on every path, for every outcome of the reads involved.  `read(k)` moves the cursor by the number of bytes it
 # returns, which is only known to lie in [0, k]: it is k when k bytes are available, and nothing guarantees that once the view
 # may be positioned at / beyond the end of the data (a legal position of a file).
-END = SymPoly.atom("<end of file>")
 _PASSIVE = ("tell", "seekable", "readable", "writable", "fileno", "isatty", "flush", "getbuffer", "getvalue")
 _IO_API = ("__init__", "__repr__", "__str__", "__del__", "__enter__", "__exit__", "__iter__", "__next__", "close", "seek", "read", "read1", "readall", "readinto",
            "readinto1", "readline", "readlines", "write", "writelines", "truncate", "tell")
@@ -3389,6 +3572,50 @@ def r8(ctx):
         ctx.ob("R8", "CURSOR", seek, text, False,
                f"whence == {name} is served by {how} `{src(c)}` whose target is computed from " + (", ".join(sorted(srcs)) or "constants") + f" only - "
                f"nothing on this path asks the underlying file for {anchor}.  " + why, c)
+
+
+# ============================================================================================== R9: what seek() returns
+def r9(ctx):
+    """A file object returns its new position from seek(): on every return path of the view's seek() the value returned is the
+    position tell() reports for the cursor the seek leaves behind.  Same case analysis over the whence vocabulary as R1/R8; the
+    returned value and tell()'s value are terms over the symbolic cursor of `_exec_seek` (L1: a raw seek returns the raw
+    position it leaves; `tell()` of the underlying file is the position at the point where it is evaluated)."""
+    seek = ctx.repo.func(f"{CLS}.seek")
+    ps = params(seek.node)
+    if len(ps) < 3 or not _raw_calls(seek, "seek"):
+        ctx.undecided("R9", "CURSOR", seek, "seek() returns the position tell() reports", "seek(offset, whence) does not forward to a seek of the underlying file that can be located")
+        return
+    off, wh = ps[1], ps[2]
+    vocab = {off} | POS.atoms() | END.atoms() | H.atoms()
+    for name, v in _WHENCE.items():  # case analysis over the whence vocabulary of the io protocol (reference table)
+        text = f"seek(offset, {name}) returns the position tell() reports"
+        trace: dict = {"returns": []}
+        status, seeks = _exec_seek(ctx, seek, off, wh, v, trace)
+        if status == "unknown":
+            ctx.undecided("R9", "CURSOR", seek, text, f"cannot follow seek() for whence == {name}")
+            continue
+        for st, term, want in trace["returns"]:  # the one exit of the path (none when it ends in a raise)
+            what = f"`{src(st)}`" if st is not None else "falling off the end of seek()"
+            after = f"the position tell() reports after the seek ({want})" if want is not None else "the position tell() reports after the seek"
+            if isinstance(term, str):
+                ctx.ob("R9", "CURSOR", seek, text, False,
+                       f"with whence == {name} seek() ends by {what} and returns None; a file object returns its new position from seek(): {after}", st)
+            elif term is None or want is None:
+                ctx.undecided("R9", "CURSOR", seek, text, f"with whence == {name} seek() ends by {what}; the returned value " +
+                              ("is not an arithmetic term over the position of the underlying file" if term is None else f"is {term}, but what tell() returns cannot be expressed") +
+                              f" - cannot be compared with {after}", st)
+            elif term == want:
+                ctx.ob("R9", "CURSOR", seek, text, True, f"with whence == {name} seek() returns {term}: {after}"
+                       + ("" if seeks else " (the underlying file is not moved on this path: R1)"), st)
+            elif (term.atoms() | want.atoms()) <= vocab:
+                ctx.ob("R9", "CURSOR", seek, text, False,
+                       f"with whence == {name} seek() ends by {what} and returns {term}, but {after} - "
+                       + f"the difference is {term - want}: "
+                       + "the caller is told a position of the underlying (encoded) file / a stale position, not the position in the decoded data that tell() "
+                         "and the next read() work from (`pos = f.seek(..)` must agree with `f.tell()`)", st)
+            else:
+                ctx.undecided("R9", "CURSOR", seek, text, f"with whence == {name} seek() ends by {what} and returns {term}; {after}: the terms contain "
+                              f"values the rule does not see through ({', '.join(sorted((term.atoms() | want.atoms()) - vocab))})", st)
 
 
 # ============================================================================================== R4: detection
